@@ -75,6 +75,10 @@ structure Cfg where
                        -- repair of F07-LOSTALRM); false = the pinned source: only the EINTR branch tests it
   stopWdog : Bool      -- dsh() cancels and joins the watchdog before it frees the thread array (part of the
                        -- proposed repair of F07-STALEID); false = the pinned source: the watchdog runs on
+  killAfter : Bool := false
+                       -- a worker that gives its target up at the command timeout waits one watchdog period and
+                       -- sends SIGKILL before it enters `rcmd_destroy` (the proposed repair of F07-TEARDOWN-WAIT,
+                       -- case (a)); false = the tree as it is: straight into `rcmd_destroy`
 deriving DecidableEq, Repr
 
 /-- NEW / RCMD (not yet blocked) / RCMD blocked in connect / READING blocked in xpoll / DONE or FAILED -/
@@ -106,6 +110,8 @@ structure Host where
   grace : Option Nat   -- copy of the script's `grace` (what a forwarded SIGTERM will do)
   death : Option Nat   -- the instant at which the remote command is gone (none = never, as things stand)
   reaped : Bool        -- `rcmd_destroy` has returned with the command gone (the connection is torn down)
+  hold : Nat := 0      -- the worker does not enter `rcmd_destroy` before this instant (`killAfter`: it sleeps out a
+                       -- grace period after giving the target up); 0 = no wait
 deriving DecidableEq, Repr
 
 def Item.avail (base now : Nat) (it : Item) : Bool :=
@@ -172,6 +178,41 @@ def termDeath (g : Option Nat) (now : Nat) (d : Option Nat) : Option Nat :=
     | none => some (now + k)
     | some x => some (min x (now + k))
 
+/-- the worker gives the target up at the command timeout: `rcmd_signal (SIGTERM)` now; with `killAfter` it will also
+    `sleep (WDOG_POLL)` and `rcmd_signal (SIGKILL)` before `rcmd_destroy` -- both unconditional from here on, so the
+    instant at which the command is gone at the latest and the instant before which the teardown does not begin are
+    fixed now -/
+def Host.giveUp (c : Cfg) (now : Nat) (h : Host) : Host :=
+  if c.killAfter then
+    { h with death := termDeath (some WDOG_POLL) now (termDeath h.grace now h.death), hold := now + WDOG_POLL }
+  else { h with death := termDeath h.grace now h.death }
+
+@[simp] theorem Host.giveUp_ph (c : Cfg) (now : Nat) (h : Host) : (Host.giveUp c now h).ph = h.ph := by
+  unfold Host.giveUp; split <;> rfl
+@[simp] theorem Host.giveUp_start (c : Cfg) (now : Nat) (h : Host) : (Host.giveUp c now h).start = h.start := by
+  unfold Host.giveUp; split <;> rfl
+@[simp] theorem Host.giveUp_cbeg (c : Cfg) (now : Nat) (h : Host) : (Host.giveUp c now h).cbeg = h.cbeg := by
+  unfold Host.giveUp; split <;> rfl
+@[simp] theorem Host.giveUp_conn (c : Cfg) (now : Nat) (h : Host) : (Host.giveUp c now h).conn = h.conn := by
+  unfold Host.giveUp; split <;> rfl
+@[simp] theorem Host.giveUp_intr (c : Cfg) (now : Nat) (h : Host) : (Host.giveUp c now h).intr = h.intr := by
+  unfold Host.giveUp; split <;> rfl
+@[simp] theorem Host.giveUp_out (c : Cfg) (now : Nat) (h : Host) : (Host.giveUp c now h).out = h.out := by
+  unfold Host.giveUp; split <;> rfl
+@[simp] theorem Host.giveUp_err (c : Cfg) (now : Nat) (h : Host) : (Host.giveUp c now h).err = h.err := by
+  unfold Host.giveUp; split <;> rfl
+@[simp] theorem Host.giveUp_res (c : Cfg) (now : Nat) (h : Host) : (Host.giveUp c now h).res = h.res := by
+  unfold Host.giveUp; split <;> rfl
+@[simp] theorem Host.giveUp_reps (c : Cfg) (now : Nat) (h : Host) : (Host.giveUp c now h).reps = h.reps := by
+  unfold Host.giveUp; split <;> rfl
+@[simp] theorem Host.giveUp_grace (c : Cfg) (now : Nat) (h : Host) : (Host.giveUp c now h).grace = h.grace := by
+  unfold Host.giveUp; split <;> rfl
+@[simp] theorem Host.giveUp_reaped (c : Cfg) (now : Nat) (h : Host) : (Host.giveUp c now h).reaped = h.reaped := by
+  unfold Host.giveUp; split <;> rfl
+theorem Host.giveUp_off {c : Cfg} (hc : c.killAfter = false) (now : Nat) (h : Host) :
+    Host.giveUp c now h = { h with death := termDeath h.grace now h.death } := by
+  simp [Host.giveUp, hc]
+
 /-- is the remote command gone? -/
 def Host.gone (now : Nat) (h : Host) : Bool :=
   match h.death with
@@ -181,16 +222,14 @@ def Host.gone (now : Nat) (h : Host) : Bool :=
 /-- `if (_thd_command_timeout (a)) { report; fail; signal; break; }` at the top of the poll loop (repair variant) -/
 def Host.selfTimeout (c : Cfg) (now : Nat) (h : Host) : Host :=
   if c.selfCheck = true ∧ h.ph = .reading ∧ 0 < c.ut ∧ h.conn + c.ut < now then
-    { h with ph := .finished, res := .cmdTimedOut, reps := h.reps ++ [Rep.cmdTimeout],
-             death := termDeath h.grace now h.death }
+    Host.giveUp c now { h with ph := .finished, res := .cmdTimedOut, reps := h.reps ++ [Rep.cmdTimeout] }
   else h
 
 /-- the blocked xpoll returns: EINTR (test the command timeout, fail or go on) or data -/
 def Host.wakeCore (c : Cfg) (now : Nat) (h : Host) : Host :=
   if h.intr then
     if 0 < c.ut ∧ h.conn + c.ut < now then
-      { h with intr := false, ph := .finished, res := .cmdTimedOut, reps := h.reps ++ [Rep.cmdTimeout],
-               death := termDeath h.grace now h.death }
+      Host.giveUp c now { h with intr := false, ph := .finished, res := .cmdTimedOut, reps := h.reps ++ [Rep.cmdTimeout] }
     else Host.pollRound now { h with intr := false }
   else if c.selfCheck = true ∧ 0 < c.ut ∧ h.conn + c.ut < now then
     Host.oneRound now h      -- overdue: after one pass the loop top fails the target (`selfTimeout`)
@@ -265,7 +304,7 @@ def fanLocal : FanG.Label → Option (Nat × Local)
 /-- the additional guard the timed world puts on a Fan label -/
 def fanGuard (s : St) : FanG.Label → Bool
   | .w i .connectEnd => (s.host i).intr || connReady (s.script i) (s.host i) s.now
-  | .w i .destroyBegin => (s.host i).ph == .finished
+  | .w i .destroyBegin => (s.host i).ph == .finished && decide ((s.host i).hold ≤ s.now)
   | .w i .destroyEnd => (s.host i).intr || (s.host i).gone s.now
   | _ => true
 
